@@ -316,6 +316,9 @@ func execMeta(c *metaCase) []string {
 	lines := []string{"begin meta"}
 	idx := comet.NewRoaringMetadataIndex()
 	emptyForms := 0
+	// search objects (and query builders) are executed at once, at once and again after the next
+	// Add / Remove, or only after it (rexec.go); the search line is emitted where the Execute happens
+	var rex rexQueue
 	for _, cmd := range c.Cmds {
 		switch cmd.Op {
 		case "add":
@@ -336,6 +339,7 @@ func execMeta(c *metaCase) []string {
 				// a rejected Add must leave no trace: compare the whole state right away
 				lines = append(lines, metaStateLine(idx))
 			}
+			rex.run()
 		case "remove":
 			err := idx.Remove(*comet.NewMetadataNodeWithID(cmd.ID, nil))
 			out := "ok"
@@ -343,6 +347,7 @@ func execMeta(c *metaCase) []string {
 				out = "err"
 			}
 			lines = append(lines, fmt.Sprintf("op remove %d => %s", cmd.ID, out))
+			rex.run()
 		case "state":
 			lines = append(lines, metaStateLine(idx))
 		case "search":
@@ -371,8 +376,8 @@ func execMeta(c *metaCase) []string {
 				}
 				gs = append(gs, grp)
 			}
-			var res []comet.MetadataResult
-			var err error
+			// run executes the search object (or query builder) built below
+			var run func() ([]comet.MetadataResult, error)
 			if cmd.Builder && len(gs) > 0 && len(fs) == 0 {
 				// Where / And / Or / Build / Execute of the query builder: the first filter of a group
 				// opens it, the others are appended with And
@@ -395,9 +400,9 @@ func execMeta(c *metaCase) []string {
 					qb = open(qb, false, g.Filters)
 				}
 				if len(gs)%2 == 0 {
-					res, err = idx.NewSearch().WithFilterGroups(qb.Build()...).Execute()
+					run = idx.NewSearch().WithFilterGroups(qb.Build()...).Execute
 				} else {
-					res, err = qb.Execute(idx)
+					run = func() ([]comet.MetadataResult, error) { return qb.Execute(idx) }
 				}
 			} else if len(fs) == 0 && len(gs) == 0 {
 				// "an empty filter list returns all live documents", however the emptiness is
@@ -405,13 +410,14 @@ func execMeta(c *metaCase) []string {
 				emptyForms++
 				switch emptyForms % 4 {
 				case 0:
-					res, err = idx.NewSearch().Execute()
+					run = idx.NewSearch().Execute
 				case 1:
-					res, err = idx.NewSearch().WithFilterGroups([]*comet.FilterGroup{}...).Execute()
+					run = idx.NewSearch().WithFilterGroups([]*comet.FilterGroup{}...).Execute
 				case 2:
-					res, err = idx.NewSearch().WithFilters([]comet.Filter{}...).WithFilterGroups([]*comet.FilterGroup{}...).Execute()
+					run = idx.NewSearch().WithFilters([]comet.Filter{}...).WithFilterGroups([]*comet.FilterGroup{}...).Execute
 				default:
-					res, err = comet.NewMetadataFilterQuery().Execute(idx)
+					qb := comet.NewMetadataFilterQuery()
+					run = func() ([]comet.MetadataResult, error) { return qb.Execute(idx) }
 				}
 			} else {
 				s := idx.NewSearch()
@@ -421,21 +427,26 @@ func execMeta(c *metaCase) []string {
 				if len(gs) > 0 {
 					s = s.WithFilterGroups(gs...)
 				}
-				res, err = s.Execute()
+				run = s.Execute
 			}
-			out := ""
-			if err != nil {
-				out = "err " + metaErrClass(err)
-			} else {
-				ids := make([]uint32, len(res))
-				for i, r := range res {
-					ids[i] = r.GetId()
+			args := q.String()
+			rex.next(func() {
+				res, err := run()
+				out := ""
+				if err != nil {
+					out = "err " + metaErrClass(err)
+				} else {
+					ids := make([]uint32, len(res))
+					for i, r := range res {
+						ids[i] = r.GetId()
+					}
+					out = "ok " + core.IDs(ids)
 				}
-				out = "ok " + core.IDs(ids)
-			}
-			lines = append(lines, "op search "+q.String()+" => "+out)
+				lines = append(lines, "op search "+args+" => "+out)
+			})
 		}
 	}
+	rex.run()
 	return append(lines, "end")
 }
 
